@@ -81,7 +81,7 @@ func runDump(_ []byte) (*reg.Result, error) {
 
 // ---------------------------------------------------------------- images
 
-var fileIDs = map[string]string{"dira/x.proto": "x", "dira/sub/y.proto": "y", "dirb/z.proto": "z", "imp/i.proto": "imp"}
+var fileIDs = map[string]string{"dira/x.proto": "x", "dira/sub/y.proto": "y", "dirb/z.proto": "z", "imp/i.proto": "imp", "dira/s1.proto": "s1", "dirb/s2.proto": "s2"}
 
 func lintSource(pkg, suffix string, imports string) string {
 	return `syntax = "proto3";
@@ -124,15 +124,17 @@ func lintFiles() map[string]string {
 		"dira/sub/y.proto": lintSource("dira.sub", "Y", ""),
 		"dirb/z.proto":     lintSource("dirb", "Z", ""),
 		"imp/i.proto":      lintSource("imp", "I", ""),
+		"dira/s1.proto":    lintSource("shared", "S1", ""),
+		"dirb/s2.proto":    lintSource("shared", "S2", ""),
 	}
 }
 
 func breakingSource(pkg, suffix, imports string, version int) string {
 	s := "syntax = \"proto3\";\npackage " + pkg + ";\n" + imports + "\nmessage M" + suffix + " {\n"
 	if version == 1 {
-		s += "  string a = 1;\n  int32 b = 2;\n  string c = 3;\n"
+		s += "  string a = 1;\n  int32 b = 2;\n  string c = 3;\n  string d = 4;\n"
 	} else {
-		s += "  string a = 1;\n  int64 b = 2;\n" // c deleted, b retyped
+		s += "  string a = 1;\n  int64 b = 2;\n  repeated string d = 4;\n" // c deleted, b retyped, d changed cardinality
 	}
 	s += "}\n"
 	if version == 1 {
@@ -149,7 +151,23 @@ func breakingFiles(version int) map[string]string {
 		"dira/sub/y.proto": breakingSource("dira.sub", "Y", "", version),
 		"dirb/z.proto":     breakingSource("dirb", "Z", "", version),
 		"imp/i.proto":      breakingSource("imp", "I", "", version),
+		"dira/s1.proto":    sharedSource("S1", version == 2, version),
+		"dirb/s2.proto":    sharedSource("S2", version == 1, version),
 	}
+}
+
+// sharedSource: two files of package "shared"; the message Moved lives in s2 in the previous version
+// and in s1 (with a retyped field) in the current one.
+func sharedSource(suffix string, withMoved bool, version int) string {
+	s := "syntax = \"proto3\";\npackage shared;\nmessage Keep" + suffix + " {\n  string k = 1;\n}\n"
+	if withMoved {
+		if version == 1 {
+			s += "message Moved {\n  string a = 1;\n  int32 b = 2;\n}\n"
+		} else {
+			s += "message Moved {\n  string a = 1;\n  int64 b = 2;\n}\n"
+		}
+	}
+	return s
 }
 
 // buildImage: x, y, z are targets, imp/i.proto is only an import.
@@ -184,6 +202,7 @@ type caseRec struct {
 		Rule      string `json:"rule"`
 		File      string `json:"file"`
 		Commented bool   `json:"commented"`
+		Against   string `json:"against"`
 	} `json:"expected"`
 }
 
@@ -209,7 +228,11 @@ func (w *world) triple(kind string, a bufx.Annotation) string {
 			commented = true
 		}
 	}
-	return fmt.Sprintf("%s|%s|%v", a.Type, fileIDs[a.Path], commented)
+	against := fileIDs[a.Path]
+	if !strings.HasPrefix(kind, "lint") && a.Path == "dira/s1.proto" && strings.Contains(a.Message, "Moved") {
+		against = "s2" // the previous version of the moved message lives in dirb/s2.proto
+	}
+	return fmt.Sprintf("%s|%s|%v|%s", a.Type, fileIDs[a.Path], commented, against)
 }
 
 func (w *world) runCheck(ctx context.Context, client bufcheck.Client, c caseRec) ([]bufx.Annotation, error, bool) {
@@ -307,7 +330,7 @@ func runReplay(in []byte) (*reg.Result, error) {
 				}
 				expTriples := map[string]bool{}
 				for _, e := range c.Expected {
-					expTriples[fmt.Sprintf("%s|%s|%v", e.Rule, e.File, e.Commented)] = true
+					expTriples[fmt.Sprintf("%s|%s|%v|%s", e.Rule, e.File, e.Commented, e.Against)] = true
 				}
 				want := map[string]bool{}
 				for _, r := range c.Selected {
